@@ -202,7 +202,9 @@ impl<RH: BuildHasher, FH: BuildHasher, GH: BuildHasher> TwoQueueCacheBuilder<RH,
         let recent = RawLRU::with_hasher(size, self.recent_hasher.unwrap()).unwrap();
         let freq = RawLRU::with_hasher(size, self.freq_hasher.unwrap()).unwrap();
 
-        let ghost = RawLRU::with_hasher(es, self.ghost_hasher.unwrap()).unwrap();
+        // the ghost bound floors to 0 for small sizes/ratios: report it like
+        // `with_2q_parameters` does instead of panicking.
+        let ghost = RawLRU::with_hasher(es, self.ghost_hasher.unwrap())?;
 
         Ok(TwoQueueCache {
             size,
